@@ -483,4 +483,3 @@ func TestWitnessAcceptOWSBeforeSemicolon(t *testing.T) {
 		t.Fatalf("MimeLoad with Content-Type %q = (%s, %v)", "application/msgpack ; charset=binary", fmtName(f), err)
 	}
 }
-
